@@ -182,6 +182,29 @@ func readBothSame(w *written) (loaded bool, err error) {
 func compareRead(w *written, ch, cy *config.AmmoConfig) (nh, ny any, err error) {
 	nh, ny = norm(ch), norm(cy)
 	want := wantConfig(w.m)
+	if a := w.ymlStats.Anchors; a != nil && a.Locals != nil {
+		// x.yaml has the `locals:` helper block of docs/eng/scenario/locals.md (anchors for common values). The block is
+		// a means of writing, not a part of the description (x.hcl's locals do not show in the configuration either): it
+		// must be read as it is written, merge keys resolved, and is then put aside.
+		helper := map[string]any{}
+		for name, entries := range a.Locals {
+			e := map[string]any{}
+			for k, v := range entries {
+				e[k] = v
+			}
+			helper[name] = e
+		}
+		full, _ := ny.(map[string]any)
+		if d := diff(full["Locals"], helper, `AmmoConfig["Locals"]`, "x.yaml", "the locals helper block as written"); d != "" {
+			return nil, nil, fmt.Errorf("the locals helper block of the YAML rendering is not read as written: %s", d)
+		}
+		aside := map[string]any{}
+		for k, v := range full {
+			aside[k] = v
+		}
+		aside["Locals"] = map[string]any{}
+		ny = aside
+	}
 	if d := diff(ny, want, "AmmoConfig", "x.yaml", "the description"); d != "" {
 		return nil, nil, fmt.Errorf("the YAML rendering is not read as the description states: %s", d)
 	}
@@ -503,6 +526,7 @@ func classifyYAMLStyles(w *written, obs *vf.Obs) {
 			o.ClassIf(strings.HasSuffix(a.Path, ".body") || strings.HasSuffix(a.Path, ".payload"), "yaml_ends_with_body_or_payload_block")
 		}
 	}
+	classifyYAMLAnchors(w, o)
 	if w.ymlStats.Tail != "" {
 		o.Class("yaml_tail_" + w.ymlStats.Tail)
 	}
